@@ -565,8 +565,18 @@ func lockFuncs(p *Prog) []*FuncInfo {
 		}
 		has := false
 		ast.Inspect(fi.Decl.Body, func(x ast.Node) bool {
-			if c, ok := x.(*ast.CallExpr); ok && p.lockOpOf(fi.Pkg, c) != nil {
-				has = true
+			if c, ok := x.(*ast.CallExpr); ok {
+				if p.lockOpOf(fi.Pkg, c) != nil {
+					has = true
+				} else if callee := p.staticCallee(fi.Pkg, c); callee != nil && callee != fi {
+					// ... or through a helper that changes the caller's lock set (lockWithAll, unlockWithAll, detachTx)
+					if net := p.lockNet(callee); net != nil && (len(net.Acq) > 0 || len(net.Rel) > 0) {
+						has = true
+					}
+					if h := p.lockHelper(callee); h != nil && len(h.Acquires) > 0 {
+						has = true
+					}
+				}
 			}
 			return !has
 		})
@@ -589,6 +599,27 @@ func c06Balanced(p *Prog, r *Report) {
 		if sum := p.lockHelper(fi); len(sum.Acquires) > 0 {
 			r.Exempt("C06.d", fi.Key, p.pos(fi.Decl), "lock helper: returns with "+heldString(sum.Acquires)+" held together with the function that releases them (its callers are checked for calling it)")
 			continue
+		}
+		// an unexported helper with a net effect on its caller's lock set (lockWithAll / unlockWithAll / detachTx):
+		// its callers are analysed with that effect applied, and they are the ones that must be balanced
+		if net := p.lockNet(fi); net != nil && (len(net.Acq) > 0 || len(net.Rel) > 0) && !fi.Obj.Exported() {
+			callers := 0
+			for _, ck := range sortedFuncKeys(p) {
+				c := p.Funcs[ck]
+				if c.Decl == nil || c.Decl.Body == nil || c == fi {
+					continue
+				}
+				ast.Inspect(c.Decl.Body, func(x ast.Node) bool {
+					if ce, isC := x.(*ast.CallExpr); isC && p.staticCallee(c.Pkg, ce) == fi {
+						callers++
+					}
+					return true
+				})
+			}
+			if callers > 0 {
+				r.Exempt("C06.d", fi.Key, p.pos(fi.Decl), fmt.Sprintf("lock helper with a net effect (takes %s, releases %s): its %d call sites are checked with that effect applied", heldString(net.Acq), heldString(net.Rel), callers))
+				continue
+			}
 		}
 		n++
 		lr := p.LockFlow(fi, nil)
